@@ -39,7 +39,11 @@ class Ctx:
         """inline crate-local helpers into a path enumeration, except the channel wrappers, the
         channel constructor and metrics (they stay leaf events)"""
         A = self.A
-        leaf = {b.path for b in A.send_wrappers} | {b.path for b in A.recv_wrappers} | set(A.chan_ctor_family)
+        leaf = {A.send_wrapper.path} | {b.path for b in A.recv_wrappers} | set(A.chan_ctor_family)
+        try:
+            leaf.add(A.ctor[0].path)  # the store constructor stays a leaf call
+        except AnchorMissing:
+            pass
         leaf.discard(root.path)
 
         def pred(site, callee):
